@@ -188,7 +188,10 @@ class DULServiceProvider(threading.Thread):
     def run(self):
         try:
             while not self.is_killed:
-                self._check_network() or self._check_outgoing_pdu() or self._check_timer()  # pylint: disable=expression-not-assigned
+                # one event at a time: the event is handled with the primitive that came with it,
+                # so nothing new is read while an event is still waiting for the state machine
+                if not self.event:
+                    self._check_network() or self._check_outgoing_pdu() or self._check_timer()  # pylint: disable=expression-not-assigned
                 try:
                     evt = self.event.popleft()
                 except IndexError:
